@@ -287,7 +287,7 @@ def expected(methods, call, env):
                 return ("m", m["mid"])
             va = vals(altcall)
             return ("r", m["mid"], run_rank(rk(altcall, va)[0], 0, altcall, va))
-        if k == "nextalt":
+        if k in ("nextalt", "fnextalt"):
             st["nrec"] += 1
             if st["nrec"] > REC_LIMIT:
                 return ("m", m["mid"])
